@@ -105,7 +105,11 @@ impl ColumnBlockWriterAsync {
     }
 
     pub async fn finish(&mut self) -> Result<(), StoreError> {
-        for (_key, file) in self.writers.drain() {
+        for (_key, mut file) in self.writers.drain() {
+            // tokio files report a failed write on the next operation: flush first
+            file.flush().await.map_err(|e| {
+                StoreError::FlushFailed(format!("Failed to write compressed data: {}", e))
+            })?;
             file.sync_all()
                 .await
                 .map_err(|e| StoreError::FlushFailed(format!("Failed to sync file: {}", e)))?;
